@@ -35,6 +35,12 @@ def check(repo: Repo, rep, tier):
     set_iter(repo, rep)
     fmt_optional(repo, rep)
     fmt_taint_fragment(repo, rep)
+    repr_through_mock(repo, rep)
+    fmt_shell(repo, rep)
+    codegen_pure(repo, rep)
+    from .C15 import fmt_degrade
+
+    fmt_degrade(repo, rep)
 
 
 def codegen_roots(repo: Repo) -> List[Func]:
@@ -307,3 +313,94 @@ def set_iter(repo: Repo, rep):
     probe = ast.parse("for k in new.keys() - old.keys():\n    pass").body[0]
     if not _is_set_expr(probe.iter, set()):
         rep.undecided("R-SET-ITER", "positive example not matched (rule broken)")
+
+
+REPR_CONV_EXEMPT = {
+    "_code_repr.py::HasRepr.__repr__": "the operand is the stored repr *text* (a str), never a nested value",
+}
+
+
+def repr_through_mock(repo: Repo, rep):
+    rep.rule(
+        "R-REPR-THROUGH-MOCK",
+        "code generation renders nested values by calling the *name* `repr(...)`, which code_repr() has re-bound (mock of builtins.repr) to the "
+        "deterministic code representation; an f-string `!r` conversion, `%r` or `format(..., 'r')` calls the object's own __repr__ directly and by-passes "
+        "it - a frozenset / set key is then written in hash order (differs with PYTHONHASHSEED), enums and types in their non-code form.  Checked in the "
+        "`repr` methods of the adapters and in every function of _code_repr.py that is registered with customize_repr",
+    )
+    n = 0
+    for f in repo.pkg_funcs():
+        rel = f.module.rel
+        in_scope = (rel.startswith("_adapter/") and f.name == "repr") or (rel == "_code_repr.py" and (any("customize_repr" in d or "register" in d for d in f.decorators) or f.name in ("__repr__",)))
+        if not in_scope:
+            continue
+        n += 1
+        hits = [x for x in body_nodes(f.node) if isinstance(x, ast.FormattedValue) and x.conversion == 114]
+        hits += [x for x in body_nodes(f.node) if isinstance(x, ast.BinOp) and isinstance(x.op, ast.Mod) and isinstance(x.left, ast.Constant) and isinstance(x.left.value, str) and "%r" in x.left.value]
+        if hits and f.key in REPR_CONV_EXEMPT:
+            rep.ok("R-REPR-THROUGH-MOCK", f, hits[0], f"`!r` exempt: {REPR_CONV_EXEMPT[f.key]}")
+        elif hits:
+            rep.violation(
+                "R-REPR-THROUGH-MOCK",
+                f,
+                hits[0],
+                f"{f.qualname} renders a nested value with `{short(hits[0], 40)}` (direct __repr__) instead of the re-bound repr(): frozenset / set parts appear in hash order and the generated text changes with PYTHONHASHSEED",
+                construct=f"{f.qualname}:!r",
+            )
+        else:
+            rep.ok("R-REPR-THROUGH-MOCK", f, f.node, "nested values go through repr()")
+    rep.floor("R-REPR-THROUGH-MOCK", "code-generating repr functions", n, 5)
+
+
+def fmt_shell(repo: Repo, rep):
+    rep.rule(
+        "R-FMT-SHELL",
+        "the configured format-command is a shell command line (docs/configuration.md documents `a | b` pipelines): the subprocess call in format_code "
+        "passes the command *string* with shell=True.  An argument vector (shlex.split) runs only the first program of a pipeline with `|` as a stray "
+        "argument; when that program exits 0 its output is taken for the formatted file",
+    )
+    from .C15 import formatter_funcs
+
+    runs = [(g, c) for g in formatter_funcs(repo) for c in body_nodes(g.node) if isinstance(c, ast.Call) and norm(c.func).split(".")[-1] in ("run", "Popen", "check_output", "call")]
+    rep.floor("R-FMT-SHELL", "subprocess calls in format_code", len(runs), 1)
+    for f, c in runs:
+        sh = [k for k in c.keywords if k.arg == "shell"]
+        if sh and isinstance(sh[0].value, ast.Constant) and sh[0].value.value is True:
+            rep.ok("R-FMT-SHELL", f, c, "format-command runs through the shell")
+        else:
+            rep.violation("R-FMT-SHELL", f, c, f"`{short(c, 60)}` does not run the format-command through the shell: documented pipelines (`ruff check --fix-only ... | ruff format ...`) are truncated to their first stage without any error", construct="no-shell")
+
+
+def codegen_pure(repo: Repo, rep):
+    rep.rule(
+        "R-CODEGEN-PURE",
+        "the text generated for a value is a function of that value alone: no function reachable from the code generators keeps a memo - no subscript "
+        "store / setdefault / update into a module-level container and no functools cache decorator.  A memo keyed by equality merges values that are "
+        "equal but written differently (True / 1, -0.0 / 0.0, Decimal('1.00') / Decimal('1.0'), frozenset({True, 2}) / frozenset({1, 2})): what is written "
+        "then depends on which of them the session rendered first (test order, -k selection)",
+    )
+    cg = callgraph(repo)
+    roots = codegen_roots(repo)
+    reach_keys = cg.reachable(roots, skip_cha=True)
+    skip = ("_format.py", "_problems.py", "pytest_plugin.py", "testing/", "_external.py", "_global_state.py", "_config.py", "_rewrite_code.py", "_source_file.py::SourceFile._format")
+    n = 0
+    for k in sorted(reach_keys):
+        if any(s in k for s in skip):
+            continue
+        f = repo.funcs[k]
+        n += 1
+        bad = None
+        for d in f.decorators:
+            if d.split(".")[-1] in ("lru_cache", "cache", "cached_property"):
+                bad = (f.node, f"is decorated with @{d}")
+        for x in body_nodes(f.node):
+            if isinstance(x, (ast.Assign, ast.AugAssign)):
+                for t in x.targets if isinstance(x, ast.Assign) else [x.target]:
+                    if isinstance(t, ast.Subscript) and isinstance(t.value, ast.Name) and t.value.id in f.module.globals_assigned and t.value.id not in f.params and not any(isinstance(a, ast.Assign) and any(isinstance(tt, ast.Name) and tt.id == t.value.id for tt in a.targets) for a in body_nodes(f.node)):
+                        bad = (x, f"stores into the module-level `{t.value.id}`")
+            if isinstance(x, ast.Call) and isinstance(x.func, ast.Attribute) and x.func.attr in ("setdefault", "update", "append", "add") and isinstance(x.func.value, ast.Name) and x.func.value.id in f.module.globals_assigned and x.func.value.id not in f.params and not any(isinstance(a, ast.Assign) and any(isinstance(tt, ast.Name) and tt.id == x.func.value.id for tt in a.targets) for a in body_nodes(f.node)):
+                bad = (x, f"mutates the module-level `{x.func.value.id}`")
+        if bad:
+            rep.violation("R-CODEGEN-PURE", f, bad[0], f"{f.qualname} {bad[1]} while generating code: the text written for a value depends on what was rendered earlier in the session (equal values with different representations share the entry)", construct=f"{f.qualname}:memo")
+    rep.ok("R-CODEGEN-PURE", roots[0], None, f"{n} code-generating functions keep no memo", site="code generators: module-level memo")
+    rep.floor("R-CODEGEN-PURE", "functions reachable from the code generators", n, 15)
